@@ -217,6 +217,14 @@ func applyPel(p pel, db *gorm.DB, root *gorm.DB) (*gorm.DB, string, *step06) {
 		return db.Debug(), "Debug()", nil
 	case "begin":
 		return db.Begin(), "Begin()", nil
+	case "ctxsame":
+		// the context the handle already carries (context.Background() on a fresh handle, or the same
+		// request context passed down a second time): still a new reusable handle
+		ctx := db.Statement.Context
+		if ctx == nil {
+			ctx = context.Background()
+		}
+		return db.WithContext(ctx), "WithContext(<the context it already carries>)", nil
 	case "skiphooks":
 		return db.Session(&gorm.Session{SkipHooks: true}), "Session(&Session{SkipHooks:true})", nil
 	case "newdb+skiphooks":
@@ -413,7 +421,7 @@ func run06(c *core.Ctx) {
 				kept = append(kept, s)
 				path = append(path, p)
 			}
-			mk := pel{kind: core.Pick(r, []string{"session", "session", "session", "ctx", "debug", "begin", "newdb", "skiphooks", "newdb+skiphooks", "newdb+ctx", "session+ctx", "newdb+dryprep"})}
+			mk := pel{kind: core.Pick(r, []string{"session", "session", "session", "ctx", "debug", "begin", "newdb", "skiphooks", "newdb+skiphooks", "newdb+ctx", "session+ctx", "newdb+dryprep", "ctxsame", "ctxsame"})}
 			db, _, _ = applyPel(mk, db, root)
 			if mk.kind == "begin" {
 				txs = append(txs, db)
@@ -549,7 +557,7 @@ func run06(c *core.Ctx) {
 var EngineC06 = &core.Engine{
 	ID:    "C06",
 	Level: "exploration",
-	Rule: "histories of 10..28 operations over a growing tree of reusable handles (Open; Session, Session{NewDB}, WithContext, Debug, Begin, Session{SkipHooks}, Session{NewDB} combined with SkipHooks / Context / PrepareStmt, Session{Context}, with 0..3 chain methods in front): start a chain from any handle, extend any chain, execute a DryRun finisher (14 kinds, among them Count without Model() in front and writes of a model whose hooks change the bound values; the statement's context marker and SkipHooks flag are part of the compared outcome) on a chain or directly on a handle, abandon chains, pass a reusable handle (repeatedly the same one) as grouped condition to Where/Or at the start or in the middle of a chain; chain methods from 28 forms (two of them calls gorm rejects: the error must stay in that chain; Where/Or/Not in 4 renderings, Select list/varargs, Omit, Order, Limit, Offset, Group, Having, Joins, Distinct, Unscoped, Scopes, Clauses(Returning/OrderBy/Locking/OnConflict/Where), Table, Model) with slice arguments that have spare capacity; " +
+	Rule: "histories of 10..28 operations over a growing tree of reusable handles (Open; Session, Session{NewDB}, WithContext, Debug, Begin, Session{SkipHooks}, Session{NewDB} combined with SkipHooks / Context / PrepareStmt, Session{Context}, WithContext with the context already carried, with 0..3 chain methods in front): start a chain from any handle, extend any chain, execute a DryRun finisher (14 kinds, among them Count without Model() in front and writes of a model whose hooks change the bound values; the statement's context marker and SkipHooks flag are part of the compared outcome) on a chain or directly on a handle, abandon chains, pass a reusable handle (repeatedly the same one) as grouped condition to Where/Or at the start or in the middle of a chain; chain methods from 28 forms (two of them calls gorm rejects: the error must stay in that chain; Where/Or/Not in 4 renderings, Select list/varargs, Omit, Order, Limit, Offset, Group, Having, Joins, Distinct, Unscoped, Scopes, Clauses(Returning/OrderBy/Locking/OnConflict/Where), Table, Model) with slice arguments that have spare capacity; " +
 		"every finisher event's path is replayed alone (twice) on a fresh Open and compared; distinct = (method-name path, finisher); non-trivial = path of at least 2 calls",
 	Assumptions: []string{
 		"results of chain methods (non-reusable handles) are only ever continued as that same chain, never forked, as gorm documents",
